@@ -836,6 +836,27 @@ theorem match_shifted_target_decided_at_tol {α : Type} (src : Vol α) (T : Geom
       (fun i => ⟨hle i, (he i).1, (he i).2⟩) hpos hclose,
    fun hbad => matchGeometry_shift_refused src T tol c hwf hshape h0 h1 p first st hp hst hdir hsp hcs hfor e he hpos hbad⟩
 
+/-- **… and non-integer scales exactly at `tol`** (whole call): a target on a reachable lattice (axes, origin, shape) whose
+spacing along axis `i` is `|st i| + e i` source spacings, `|e i| < 1/2`:
+* every `|e i| ≤ tol` and the affine within `tol` of the exact one as `geometry_equal` measures it ⇒ SUCCEEDS, returning the
+  volume it returns for the exact spacing (`onLatticeSpacing`);
+* some `|e i| > tol` ⇒ REFUSED with RuntimeError — however small the spacing and however large the stride (the reading the
+  mutation `scale-tolerance-relative` changes). -/
+theorem match_scaled_target_decided_at_tol {α : Type} (src : Vol α) (T : Geom) (tol : Rat) (c : PadMode α)
+    (hwf : WF src.geom) (hshape : ∀ i, 1 ≤ T.shape i) (h0 : 0 < tol) (h1 : tol ≤ 1)
+    (p : Ax → Ax) (first st : Ax → Int) (hp : isPerm p = true) (hst : ∀ i, st i ≠ 0)
+    (hdir : T.dir = (sliceGeom (permuted src.geom p) first st T.shape).dir)
+    (hpos : T.pos = (sliceGeom (permuted src.geom p) first st T.shape).pos)
+    (hcs : T.cs = src.geom.cs) (hfor : forConflict src.geom T = false)
+    (e : Ax → Rat) (he : ∀ i, -(1 / 2) < e i ∧ e i < 1 / 2)
+    (hsp : ∀ i, T.spacing i = ((((st i).natAbs : Int) : Rat) + e i) * src.geom.spacing (p i)) :
+    ((∀ i, rabs (e i) ≤ tol) → AffineWithin (onLatticeSpacing src.geom T p first st) T (some tol) →
+      ∃ r, matchGeometry src T tol c = .ok r ∧ matchGeometry src (onLatticeSpacing src.geom T p first st) tol c = .ok r ∧
+        (∀ i, r.geom.col i = (onLatticeSpacing src.geom T p first st).col i) ∧ r.geom.pos = T.pos ∧
+        (∀ i, r.geom.shape i = T.shape i)) ∧
+    ((∃ i, tol < rabs (e i)) → matchGeometry src T tol c = .error .runtime) :=
+  matchGeometry_scaled src T tol c hwf hshape h0 h1 p first st hp hst hdir hpos hcs hfor e he hsp
+
 /-! ## frame of reference of the result -/
 
 /-- **The matched volume keeps the SOURCE's frame of reference and coordinate system** (it does not adopt the target's): when
@@ -862,6 +883,15 @@ theorem match_own_geometry {α : Type} (src : Vol α) (tol : Rat) (mode : PadMod
   exact ((match_sound src src.geom tol mode hlaw r hwf.det_ne_zero hr1).2 k hk').1 k hk href.symm
 
 /-! ## non-vacuity (round 2) -/
+
+/-- spacing of target axis 0 (two source voxels of spacing 2, backwards) off by `e = 1/1000000` source spacings: matched;
+off by `e = 1/4`: refused -/
+example : (match matchGeometry exSrc { exTgt with spacing := mk3 ((2 + 1 / 1000000) * 2) 1 (1 / 2) } (1 / 100000) (.constant (-7)) with
+    | .ok r => r.vox (mk3 0 1 0) == 13 && decide (r.geom.spacing 0 = 4)
+    | .error _ => false) = true ∧
+    (match matchGeometry exSrc { exTgt with spacing := mk3 ((2 + 1 / 4) * 2) 1 (1 / 2) } (1 / 100000) (.constant (-7)) with
+    | .ok _ => false
+    | .error e => e == .runtime) = true := by decide +kernel
 
 /-- the round-1 target shifted by a millionth of a source voxel along x (its axis 1): matched, voxels as for the unshifted
 target; shifted by a quarter voxel: refused (the hypotheses of `match_shifted_target_decided_at_tol` with `e = (0, 1/1000000, 0)`
